@@ -83,9 +83,9 @@ def typeless_struct(s, depth=0):
     return False
 
 def small_ints(v):
-    """instance domain of the model: integers within i64 (C10's documented fallback)"""
+    """instance domain of the model: integer literals serde_json keeps exact (i64 and u64)"""
     if isinstance(v, bool): return True
-    if isinstance(v, int): return -2**63 <= v <= 2**63 - 1
+    if isinstance(v, int): return -2**63 <= v <= 2**64 - 1      # what serde_json reads as i64 / u64 (beyond: f64)
     if isinstance(v, float): return v == v and abs(v) < 1e15 and (v * 64) == int(v * 64)
     if isinstance(v, list): return all(small_ints(x) for x in v)
     if isinstance(v, dict): return all(small_ints(x) for x in v.values())
